@@ -178,22 +178,58 @@ Fixpoint translate_from (defd : list id) (p : body) : list stmt :=
 Definition translate (p : body) : list stmt := translate_from [] p.
 
 (* ---- ExpressionInterpreter's function table ------------------------------------------------ *)
-(* The generated programs carry the REFERENCE meaning of every intrinsic: NM-TRAN's MOD is the
-   Fortran remainder (sign of the dividend), function symbol F_FMOD.  Since fix 81bb571
-   ExpressionInterpreter.mod builds x - y*INT(x/y), an expression with exactly that meaning
-   (before, it returned sympy.Mod, the floored modulo F_MOD of Base/Interp.v: finding
-   C01-MOD-SIGN, fixed).  So every intrinsic is now mapped to a function of the same meaning
-   (INT to sign*floor(abs), MOD to x - y*INT(x/y), the protected functions to the Piecewise of
-   their definition); which expression is built is checked by the correspondence by evaluation,
-   and the table is the identity on function symbols. *)
+(* The generated programs carry the REFERENCE meaning of every intrinsic as a function symbol.
+   MOD is the Fortran remainder F_FMOD (since fix 81bb571 the code builds x - y*INT(x/y), an
+   expression of that meaning; checked by evaluation).  LOG10 and NONMEM's PROTECTED functions
+   are uninterpreted symbols F_LOG10, F_PEXP, ...; pharmpy.internals.expr.funcs expands them at
+   read time into a Piecewise that clamps the argument (PEXP(x) = EXP(100) for x > 100, ...):
+   [template] is that expansion over the placeholder x0, [read_expr] substitutes the argument. *)
 Definition F_FMOD : id := 20%positive.
 Definition read_fn2 (f : id) : id := f.
+
+Inductive prot := PEXP | PLOG | LOG10 | PLOG10 | PSQRT | PNG | PHE | PNP | PZR | PDZ.
+Definition F_PEXP : id := 31%positive.   Definition F_PLOG : id := 32%positive.
+Definition F_LOG10 : id := 33%positive.  Definition F_PLOG10 : id := 34%positive.
+Definition F_PSQRT : id := 35%positive.  Definition F_PNG : id := 36%positive.
+Definition F_PHE : id := 37%positive.    Definition F_PNP : id := 38%positive.
+Definition F_PZR : id := 39%positive.    Definition F_PDZ : id := 40%positive.
+
+Definition prot_of_id (f : id) : option prot :=
+  if Pos.eqb f F_PEXP then Some PEXP else if Pos.eqb f F_PLOG then Some PLOG
+  else if Pos.eqb f F_LOG10 then Some LOG10 else if Pos.eqb f F_PLOG10 then Some PLOG10
+  else if Pos.eqb f F_PSQRT then Some PSQRT else if Pos.eqb f F_PNG then Some PNG
+  else if Pos.eqb f F_PHE then Some PHE else if Pos.eqb f F_PNP then Some PNP
+  else if Pos.eqb f F_PZR then Some PZR else if Pos.eqb f F_PDZ then Some PDZ else None.
+
+Definition x0 : id := 1%positive.                       (* placeholder of the argument *)
+Definition smallz : Q := (28 # 1000000000000000000000000000000000000000000000000000000000000000000000000000000000000000000000000000000000)%Q.   (* 2.8E-103 *)
+Definition X0 : expr := Sym x0.
+Definition pw2 (c : cond) (a b : expr) : expr := PwCons c a (PwCons CTrue b PwNil).
+Definition log10_of (a : expr) : expr := Div (Fn1 F_LOG a) (Fn1 F_LOG (Num 10)).
+
+(* funcs.py: PEXP, PLOG, LOG10, PLOG10, PSQRT, PNG, PHE, PNP, PZR, PDZ *)
+Definition template (p : prot) : expr :=
+  match p with
+  | PEXP => pw2 (CRel OGt X0 (Num 100)) (Fn1 F_EXP (Num 100)) (Fn1 F_EXP X0)
+  | PLOG => pw2 (CRel OLt X0 (Num smallz)) (Fn1 F_LOG (Num smallz)) (Fn1 F_LOG X0)
+  | LOG10 => log10_of X0
+  | PLOG10 => pw2 (CRel OLt X0 (Num smallz)) (log10_of (Num smallz)) (log10_of X0)
+  | PSQRT => pw2 (CRel OLt X0 (Num 0)) (Num 0) (Fn1 F_SQRT X0)
+  | PNG => pw2 (CRel OLt X0 (Num 0)) (Num 0) X0
+  | PHE => pw2 (CRel OGt X0 (Num 100)) (Num 100) X0
+  | PNP => pw2 (CRel OLt X0 (Num smallz)) (Num smallz) X0
+  | PZR => pw2 (CRel OLt (Fn1 F_ABS X0) (Num smallz)) (Num smallz) X0
+  | PDZ => pw2 (CRel OLt (Fn1 F_ABS X0) (Num smallz)) (Div (Num 1) (Num smallz)) (Div (Num 1) X0)
+  end.
 
 Fixpoint read_expr (e : expr) : expr :=
   match e with
   | Num q => Num q
   | Sym s => Sym s
-  | Fn1 f a => Fn1 f (read_expr a)
+  | Fn1 f a => match prot_of_id f with
+               | Some p => subs x0 (read_expr a) (template p)
+               | None => Fn1 f (read_expr a)
+               end
   | Fn2 f a b => Fn2 (read_fn2 f) (read_expr a) (read_expr b)
   | Add a b => Add (read_expr a) (read_expr b)
   | Mul a b => Mul (read_expr a) (read_expr b)
@@ -211,6 +247,12 @@ with read_cond (c : cond) : cond :=
   | COr a b => COr (read_cond a) (read_cond b)
   | CNot a => CNot (read_cond a)
   end.
+
+(* SPECIFICATION of the protected functions: an interpretation of the function symbols respects
+   the protection rules when every protected symbol equals its clamp rule over the base functions *)
+Definition protected_spec (fi : finterp) : Prop :=
+  forall f p x, prot_of_id f = Some p ->
+    fi1 fi f x = eval (upd (fun _ => None) x0 (Some x)) fi (template p).
 
 Fixpoint read_stmt (s : nmstmt) : nmstmt :=
   match s with
